@@ -14,6 +14,6 @@ CONSTANTS
   MaxOps = 5
   Acts <- ActsAll
 VIEW view
-INVARIANTS TypeOK PoolOK
+INVARIANTS TypeOK PoolOK WindowNewest
 PROPERTIES ProposalOK ReplaceOnlyHigher
 CHECK_DEADLOCK FALSE
